@@ -45,35 +45,35 @@ type fileRec struct {
 }
 
 type env struct {
-	h        *hx.H
-	focus    string
-	root     string
-	nstore   int
-	dir      string
-	store    db.DB
-	kmc      *keystore.KeystoreManagerForPoC
-	pub      int
-	priv     int // believed current private passphrase index, -1 = none yet
-	passes   []string
-	wf       []bool
-	seeds    [][]byte
-	idOf     map[string]int
-	nameOf   map[int]string
-	freshID  int
-	files    []fileRec
-	keyAddr  map[triple]string
-	keyPub   map[triple][]byte
-	issued   map[string]bool // plot keys ever returned by genpub / next external (hex pubkey)
-	issuedAt map[string]triple
-	issuedGen map[string]int
-	gen      map[int]int // keystore id -> how many times it was created / imported in this wallet lineage
-	unlocked bool
+	h           *hx.H
+	focus       string
+	root        string
+	nstore      int
+	dir         string
+	store       db.DB
+	kmc         *keystore.KeystoreManagerForPoC
+	pub         int
+	priv        int // believed current private passphrase index, -1 = none yet
+	passes      []string
+	wf          []bool
+	seeds       [][]byte
+	idOf        map[string]int
+	nameOf      map[int]string
+	freshID     int
+	files       []fileRec
+	keyAddr     map[triple]string
+	keyPub      map[triple][]byte
+	issued      map[string]bool // plot keys ever returned by genpub / next external (hex pubkey)
+	issuedAt    map[string]triple
+	issuedGen   map[string]int
+	gen         map[int]int // keystore id -> how many times it was created / imported in this wallet lineage
+	unlocked    bool
 	acctVariant map[int]int
-	sec      map[string]*ksSecrets
-	c        *ctl // fault control (C12)
-	faulty   bool
-	quiet    bool
-	nrep     int
+	sec         map[string]*ksSecrets
+	c           *ctl // fault control (C12)
+	faulty      bool
+	quiet       bool
+	nrep        int
 }
 
 func (e *env) ptok(i int) string {
@@ -993,6 +993,38 @@ func (e *env) audit() {
 	}
 }
 
+// scenarioMany: keystores with many keys on both branches, issued while the wallet is LOCKED (public derivation),
+// then a restart, an unlock and the closing audit, which signs with every key and verifies each signature.
+// Hundreds of keys matter for two reasons: about one derived private scalar in 256 has a leading zero byte (the
+// keys keep their minimal length), and the 8-byte record keys of the public-key bucket take every byte value
+// (index 95 = '_', the bucket path separator).
+func (e *env) scenarioMany(nks int, per uint32) {
+	p := e.priv
+	if p < 0 {
+		p = 1
+	}
+	if e.unlocked {
+		e.do("lock", e.lock())
+	}
+	for k := 0; k < nks; k++ {
+		e.freshID++
+		id := e.freshID
+		_, out := e.opNew(p, "s"+strconv.Itoa(id), "many")
+		e.do(fmt.Sprintf("new %s s%d %s", e.ptok(p), id, rtok("many")), out)
+		if !strings.HasPrefix(out, "created") {
+			return
+		}
+		if e.unlocked {
+			e.do("lock", e.lock())
+		}
+		e.do(e.opNext(id, false, per))
+		e.do(e.opNext(id, true, per))
+	}
+	e.h.Emit("dump", e.dump())
+	e.restart()
+	e.h.Emit("dump", e.dump())
+}
+
 // scenarioBranches: keystores with keys on one branch only / unequal counts, issued locked and unlocked,
 // exported, deleted, imported, unlocked — the closing audit then signs with every key.
 func (e *env) scenarioBranches() {
@@ -1143,6 +1175,9 @@ func main() {
 		}
 		if e.focus == "C01" || h.Rng.Intn(6) == 0 {
 			e.scenarioC01()
+		}
+		if s == 0 && (e.focus == "C02" || e.focus == "C05") {
+			e.scenarioMany(3, 200)
 		}
 		e.audit()
 		if s < 2 {
